@@ -46,6 +46,7 @@ CheckupRate<CheckupType>::CheckupRate(
 template<typename CheckupType>
 DiagnosticStatus CheckupRate<CheckupType>::evaluate(const Duration & stamp)
 {
+  std::lock_guard<std::mutex> lock(mutex_);
   double rate = rateMonitoring_.update(stamp);
   return checkup_.evaluate(rate);
 }
@@ -54,6 +55,7 @@ DiagnosticStatus CheckupRate<CheckupType>::evaluate(const Duration & stamp)
 template<typename CheckupType>
 DiagnosticReport CheckupRate<CheckupType>::getReport() const
 {
+  std::lock_guard<std::mutex> lock(mutex_);
   return checkup_.getReport();
 }
 
@@ -61,6 +63,7 @@ DiagnosticReport CheckupRate<CheckupType>::getReport() const
 template<typename CheckupType>
 bool CheckupRate<CheckupType>::heartBeatCallback(const Duration & stamp)
 {
+  std::lock_guard<std::mutex> lock(mutex_);
   if (rateMonitoring_.timeout(stamp)) {
     checkup_.timeout();
     return false;
